@@ -192,6 +192,19 @@ def const(node):
     return None
 
 
+def int_const(e, module=None):
+    """the int an expression stands for: a literal, or a module-level name bound once to an int literal (`_MS_PER_SEC = 1000`)"""
+    v = const(e)
+    if isinstance(v, int) and not isinstance(v, bool):
+        return v
+    if isinstance(e, ast.Name) and module is not None:
+        d = module.module_assign(e.id)
+        d = d.value if isinstance(d, ast.Assign) else d
+        if isinstance(d, ast.Constant) and isinstance(d.value, int) and not isinstance(d.value, bool):
+            return d.value
+    return None
+
+
 def kwarg(call, name, pos=None):
     for k in call.keywords:
         if k.arg == name:
